@@ -108,7 +108,7 @@ def build_model(spec, extra_mixins=(), extra_params=None):
         "material_constants": {"fluid": pp.FluidComponent(**spec["fluid"]), "solid": pp.SolidConstants(**spec["solid"])},
         "time_manager": pp.TimeManager(schedule=[0.0, spec["dt"]], dt_init=spec["dt"], constant_dt=True),
         "folder_name": str(scratch_file("model_out")),
-        "meshing_kwargs": {"file_name": str(scratch_file("model_mesh.msh"))},
+        "meshing_kwargs": {"file_name": scratch_file("model_mesh.msh")},
     }
     if spec.get("geom") == "nonmatching":
         params.update(grid_type="cartesian", meshing_arguments={"cell_size": spec["cell_size"]},
